@@ -219,6 +219,15 @@ func (s *gsim) modelEval(src string, state rel.Value) (v rel.Value, err error) {
 	return e.Eval(s.ctx, rel.EmptyScope.With("$", state))
 }
 
+func marshal(v rel.Value) (js string, ok bool) {
+	defer func() {
+		if recover() != nil {
+			js, ok = "", false
+		}
+	}()
+	return string(rel.MarshalToJSON(v)), true
+}
+
 func (s *gsim) cur() rel.Value { return s.states[len(s.states)-1] }
 
 func (s *gsim) install(v rel.Value) {
@@ -233,7 +242,14 @@ func (s *gsim) install(v rel.Value) {
 			s.lastCause = "observer-eval-error"
 			continue
 		}
-		js := string(rel.MarshalToJSON(ov))
+		js, encodable := marshal(ov)
+		if !encodable {
+			// the frontend cannot put this value on the wire (e.g. +Inf): the observer fails, nobody else may
+			o.dead, o.deadCause = true, "unencodable-value"
+			s.lastCause = "unencodable-value"
+			s.c.Fault("observer-value-unencodable")
+			continue
+		}
 		o.required = append(o.required, js)
 		switch s.behaviour(o.param, gSerial(js)) {
 		case gErr:
@@ -254,8 +270,8 @@ func (s *gsim) wedged(where, what string) {
 	s.c.Violate("progress", "C17/grpc-wedge/"+cause, "%s: %s is not answered although no stream Send is blocked (engine wedged; last observer event in the model: %s)", where, what, cause)
 }
 
-var gUpdateKinds = []string{"(v: %d, x: %d)", "(v: %d)", "$ +> (v: %d)", "$.zzz", "(v: %d, x: %d)", "(v: %d, x: %d", "(v: %d, x: %d)"}
-var gObserveKinds = []string{"$", "$.v", "$.x", "42", "$.zzz", "$", "$ ++"}
+var gUpdateKinds = []string{"(v: %d, x: %d)", "(v: %d)", "$ +> (v: %d)", "$.zzz", "(v: %d, x: %d)", "(v: %d, x: %d", "(v: %d, x: %d)", "$"}
+var gObserveKinds = []string{"$", "$.v", "$.x", "42", "$.zzz", "$", "$ ++", "1 / ($.v - 2)", "1 / ($.v - 4)"}
 
 // sendUpdate pushes one request into an update stream and settles.
 func (s *gsim) sendUpdate(where string, u *gupd, src string) {
@@ -384,7 +400,12 @@ func (s *gsim) step(i int) {
 				s.c.Violate("progress", "C17/grpc-observe-unanswered", "Observe(`%s`) cannot be evaluated but the handler did not return", src)
 			}
 		} else {
-			o.initial = string(rel.MarshalToJSON(v))
+			js, encodable := marshal(v)
+			if !encodable {
+				o.dead, o.deadCause, o.unknown = true, "unencodable-value", true
+				s.lastCause = "unencodable-value-at-subscription"
+			}
+			o.initial = js
 		}
 	case k == 8 && len(s.upds) > 0:
 		u := s.upds[t.Draw(len(s.upds))]
